@@ -263,4 +263,108 @@ def sleepOps : Nat → List Op
   | 0 => [.settle]
   | d + 1 => .settle :: .jump 1 :: sleepOps d
 
+/-! ### The removal report: `EventBus.emit(SearchRequestRemovedEvent)` inside the timer task
+
+`_timeout_search_request` (manager.py:333-335) runs inside the request's own `Timer.runner` task: it deletes the
+registry entry and then awaits `EventBus.emit` (events.py:156-173), which calls the registered listeners one
+after the other and awaits those that are coroutine functions.  A listener may stay suspended for as long as it
+likes; meanwhile every other operation can happen.  `task.cancel()` on the reporting task throws `CancelledError`
+into the suspended listener (when a task cancels *itself*: into the next listener that really suspends); `emit`
+catches `Exception` only, so the listeners after it would never be told.
+
+The layer below keeps the timer task alive while it reports.  `Emission.tid` is that task, `told` the number of
+listeners called so far (the last of them may still be suspended), `cancelled` whether `Timer.cancel` hit the
+task.  `NOp.resume rid` is one step of the schedule: the suspended listener returns and the next one is called (a
+listener that never suspends is one that is resumed at once, so every mix of plain / slow listeners is an op
+list).  `Timer.cancel` is called by `remove_request`, by `Timer.reschedule` and by a direct `Timer.cancel` — always
+on the Timer of a request found through `SearchManager.requests` (`cancelTarget`; `cancelTarget_marks` /
+`cancelTarget_complete` in Proofs/Search.lean tie it to what `step` does to the pending tasks).
+`listeners` counts the listeners registered for `SearchRequestRemovedEvent`. -/
+
+structure Emission where
+  rid : Nat
+  ticket : Nat
+  tid : Nat                 -- the `Timer.runner` task that runs `_timeout_search_request`
+  told : Nat                -- listeners called so far
+  cancelled : Bool          -- `task.cancel()` hit the reporting task
+deriving Repr, DecidableEq
+
+structure NState where
+  base : State
+  listeners : Nat
+  reporting : List Emission
+deriving Repr
+
+def ninit (cfg : Cfg) (listeners : Nat) : NState :=
+  { base := init cfg, listeners := listeners, reporting := [] }
+
+inductive NOp
+  | base (op : Op)
+  | resume (rid : Nat)      -- the listener that holds the report for request `rid` returns
+deriving Repr, DecidableEq
+
+inductive NObs
+  | base (o : Obs)
+  | told (t rid tk i : Nat)       -- listener `i` (0-based) is called with the removal of request `rid`
+  | finished (t rid tk : Nat)     -- `emit` returned, the timer task is done
+  | aborted (t rid tk i : Nat)    -- CancelledError inside `emit` after `i` listeners were called: the others never are
+  | noEmission                    -- harness: no report for that request is in progress
+deriving Repr, DecidableEq
+
+/-- The task on which `op` calls `task.cancel()` (through `Timer.cancel`, tasks.py:90-97): the handle of the Timer
+of the registered request with that ticket (manager.py:111-114; tasks.py:103-107). -/
+def cancelTarget (s : State) : Op → Option Nat
+  | .remove tk | .timerCancel tk | .timerReschedule tk _ =>
+    match lookup s tk with
+    | none => none
+    | some r =>
+      match r.timeout with
+      | none => none
+      | some _ => r.handle
+  | _ => none
+
+def hit (target : Option Nat) (e : Emission) : Emission :=
+  if target = some e.tid then { e with cancelled := true } else e
+
+/-- `_timeout_search_request` reaches `emit`: the first listener is called in the same step. -/
+def newEmission : Obs → Option Emission
+  | .removed _ rid tk _ tid => some { rid := rid, ticket := tk, tid := tid, told := 1, cancelled := false }
+  | _ => none
+
+def firstTold : Obs → Option NObs
+  | .removed t rid tk _ _ => some (.told t rid tk 0)
+  | _ => none
+
+def bump (rid : Nat) (e : Emission) : Emission := if e.rid = rid then { e with told := e.told + 1 } else e
+
+def nstep (s : NState) : NOp → NState × List NObs
+  | .base op =>
+    let r := step s.base op
+    let rep := s.reporting.map (hit (cancelTarget s.base op))
+    if s.listeners = 0 then ({ s with base := r.1, reporting := rep }, r.2.map .base)
+    else ({ s with base := r.1, reporting := rep ++ r.2.filterMap newEmission },
+          r.2.map .base ++ r.2.filterMap firstTold)
+  | .resume rid =>
+    match s.reporting.find? (·.rid = rid) with
+    | none => (s, [.noEmission])
+    | some e =>
+      if e.cancelled then
+        ({ s with reporting := s.reporting.filter (·.rid ≠ rid) }, [.aborted s.base.now e.rid e.ticket e.told])
+      else if e.told < s.listeners then
+        ({ s with reporting := s.reporting.map (bump rid) }, [.told s.base.now e.rid e.ticket e.told])
+      else
+        ({ s with reporting := s.reporting.filter (·.rid ≠ rid) }, [.finished s.base.now e.rid e.ticket])
+
+def nrun : NState → List NOp → NState × List NObs
+  | s, [] => (s, [])
+  | s, op :: ops =>
+    let r := nstep s op
+    let r2 := nrun r.1 ops
+    (r2.1, r.2 ++ r2.2)
+
+/-- `SearchManager.stop()` (manager.py:437-457) as far as requests are concerned: the wishlist task and the Timer
+of every registered request are cancelled (the requests stay registered). A derived op list, like `sleepOps`. -/
+def stopOps (s : State) : List Op :=
+  (s.requests.filter (·.timeout.isSome)).map (fun r => Op.timerCancel r.ticket) ++ [.serverClosing]
+
 end AioslskVerif.Search
